@@ -4,7 +4,7 @@ Everything a per-property module needs: one seeded PRNG, the Coq literal printer
 parser of `Eval vm_compute` output, the (locked, timed) Coq build, obligations +
 `Print Assumptions`, evidence writer, known-findings matcher, replay writer.
 """
-import os, sys, json, time, re, random, subprocess, fcntl, hashlib, fractions, collections, traceback
+import shutil, os, sys, json, time, re, random, subprocess, fcntl, hashlib, fractions, collections, traceback
 
 VERIF = os.path.dirname(os.path.dirname(os.path.abspath(__file__)))
 REPO = os.environ.get('VERIF_REPO', '/repo')
@@ -267,8 +267,18 @@ class Ctx:
         self.prop, self.tier, self.seed, self.level = prop, tier, seed, level
         self.rng = random.Random((hash_str(prop) << 20) ^ seed)
         self.t0 = time.time()
-        self.bdir = os.path.join(BUILD, prop)
+        # one scratch directory per run: two runs of the same check at the same time (quick and thorough, or a run on a
+        # scratch tree next to a run on /repo) must not overwrite each other's generated case files
+        self.pdir = os.path.join(BUILD, prop)
+        self.bdir = os.path.join(self.pdir, 'run-%s-%d' % (tier, os.getpid()))
         os.makedirs(self.bdir, exist_ok=True)
+        try:      # scratch directories left by runs that were killed
+            for d in os.listdir(self.pdir):
+                q = os.path.join(self.pdir, d)
+                if d.startswith('run-') and q != self.bdir and os.path.isdir(q) and time.time() - os.path.getmtime(q) > 6 * 3600:
+                    shutil.rmtree(q, ignore_errors=True)
+        except OSError:
+            pass
         self.evaluations = 0
         self.distinct = set()
         self.samples = []
@@ -316,7 +326,7 @@ class Ctx:
             ok = False
             log += '\nGATE: forbidden declarations: ' + '; '.join(gate)
         if not ok:
-            open(os.path.join(self.bdir, 'make.log'), 'w').write(log)
+            open(os.path.join(self.pdir, 'make.log'), 'w').write(log)
             for n in names:
                 self.obligations.append((n, False, []))
             self.broken_log = log
@@ -370,7 +380,7 @@ class Ctx:
         vals = split_evals(out)
         if len(vals) != len(exprs):
             raise RuntimeError('expected %d results, got %d from %s\n%s' % (len(exprs), len(vals), p, out[-2000:]))
-        self.checker_cmds.append('coqc -Q /verif/coq Plinio build/%s/%s.v   (%d vm_compute evaluations)' % (self.prop, name, len(exprs)))
+        self.checker_cmds.append('coqc -Q /verif/coq Plinio build/%s/run-*/%s.v   (%d vm_compute evaluations)' % (self.prop, name, len(exprs)))
         return [parse_coq(v) for v in vals]
 
     def coq_eval_sharded(self, name, imports, defs, exprs, shard=400, timeout=900):
@@ -432,8 +442,11 @@ class Ctx:
               'coverage': cov, 'assumptions': self.assumptions + ['see DESIGN.md §7 (trusted base) and §C' + self.prop[1:]],
               'wall_s': round(time.time() - self.t0, 2), 'violations': len(self.violations)}
         os.makedirs(EVID, exist_ok=True)
-        with open(os.path.join(EVID, self.prop + '.json'), 'w') as f:
+        tmp = os.path.join(EVID, '.%s.%d.tmp' % (self.prop, os.getpid()))
+        with open(tmp, 'w') as f:
             json.dump(ev, f, indent=1, default=jdefault)
+        os.replace(tmp, os.path.join(EVID, self.prop + '.json'))
+        shutil.rmtree(self.bdir, ignore_errors=True)
         print('%s %s: obligations %d/%d, cases %d (distinct non-trivial %d), model-vs-impl comparisons %d, known findings %d, violations %d, %.1fs'
               % (self.prop, self.tier, ndis, nob, self.evaluations, len(self.distinct), self.corr, len(self.known_printed), len(self.violations), time.time() - self.t0), flush=True)
         return 1 if self.violations else 0
